@@ -9,6 +9,11 @@ if ! /venv/bin/python -c "import hypothesis" 2>/dev/null; then
   /venv/bin/pip install --no-index --find-links /opt/veriftools/wheels \
       --target .deps hypothesis >/dev/null
 fi
+if ! PYTHONPATH=.deps /venv/bin/python -c "import atheris" 2>/dev/null; then
+  mkdir -p .deps
+  /venv/bin/pip install --no-index --find-links /opt/veriftools/wheels \
+      --target .deps atheris >/dev/null 2>&1 || echo "atheris not installable: coverage-guided shards will be skipped"
+fi
 PYTHONPATH=.deps /venv/bin/python -c "import hypothesis; print('hypothesis', hypothesis.__version__)"
 if [ -f vfw/conformance.py ]; then
   PYTHONPATH=.deps:. /venv/bin/python -m vfw.conformance --quick
